@@ -8,6 +8,7 @@ use std::collections::BTreeMap;
 
 const UNITS: &[&str] = &[
     "a", "b", "x", "fn", " ", " ", "\n", "\n", "\r\n", "\r\n", "ß", "é", "ℝ", "→", "💣", "𝒳", "(", ")", "{", "}", "=", "1",
+    "\t", "e\u{301}", "\u{feff}", "👨\u{200d}👩\u{200d}👧", "\u{1f1e9}\u{1f1ea}", "\"", "//",
 ];
 
 pub fn gen_text(rng: &mut Rng, max_units: usize) -> String {
